@@ -266,6 +266,63 @@ pub fn judge(case: &Case) -> Outcome {
                 }
             }
         }
+        "c04.file" => {
+            // Rule::load: the text arrives as the bytes of a file (hex in the case so that invalid
+            // UTF-8 survives the replay file)
+            let bytes = match hex_decode(&text) {
+                Some(b) => b,
+                None => return Outcome::Skip("bad hex".into()),
+            };
+            let dir = verif_root().join("harness").join("target").join("c04_files");
+            let _ = std::fs::create_dir_all(&dir);
+            let path = dir.join(format!("{}-{}.yml", std::process::id(), hash_str(&format!("{:?}", std::thread::current().id()))));
+            if std::fs::write(&path, &bytes).is_err() {
+                return Outcome::Skip("cannot write scratch file".into());
+            }
+            let via_file = guarded(|| tau_engine::Rule::load(&path));
+            let _ = std::fs::remove_file(&path);
+            evals += 1;
+            let via_file = match via_file {
+                Ok(r) => r,
+                Err(p) => return Outcome::Violation(format!("Rule::load panicked on a file of {} bytes: {p}", bytes.len())),
+            };
+            // a path that does not exist and a path that is a directory are errors, not panics
+            for odd in [dir.join("does-not-exist").join("x.yml"), dir.clone()] {
+                match guarded(|| tau_engine::Rule::load(&odd).is_ok()) {
+                    Ok(false) => {}
+                    Ok(true) => return Outcome::Violation(format!("Rule::load({}) returned a rule", odd.display())),
+                    Err(p) => return Outcome::Violation(format!("Rule::load({}) panicked: {p}", odd.display())),
+                }
+                evals += 1;
+            }
+            match std::str::from_utf8(&bytes) {
+                Ok(s) => {
+                    labels.push("file_is_utf8");
+                    let via_text = match engine::load_text(s) {
+                        Load::Ok(r) => Some(r),
+                        Load::Rejected(_) => None,
+                        Load::Panicked(p) => return Outcome::Violation(format!("Rule::from_str panicked: {p}")),
+                    };
+                    evals += 1;
+                    match (&via_file, &via_text) {
+                        (Ok(a), Some(b)) => {
+                            accepted = true;
+                            let (ya, yb) = (serde_yaml::to_string(a).unwrap_or_default(), serde_yaml::to_string(b).unwrap_or_default());
+                            if serde_yaml::from_str::<Y>(&ya).ok() != serde_yaml::from_str::<Y>(&yb).ok() {
+                                return Outcome::Violation(format!("Rule::load and Rule::from_str give different rules for the same text:\n{ya}\nvs\n{yb}"));
+                            }
+                        }
+                        (Err(_), None) => {}
+                        (Ok(_), None) => return Outcome::Violation("Rule::load accepts a file whose text Rule::from_str rejects".into()),
+                        (Err(e), Some(_)) => return Outcome::Violation(format!("Rule::load rejects ({e}) a file whose text Rule::from_str accepts")),
+                    }
+                }
+                Err(_) => {
+                    labels.push("file_is_not_utf8");
+                    accepted = via_file.is_ok();
+                }
+            }
+        }
         "c04.huge" => {
             let rule = match huge_rule(&text) {
                 Some(r) => r,
@@ -342,6 +399,17 @@ pub fn huge_rule(desc: &str) -> Option<String> {
         "two_entries" => wrap(format!("  - foo: '*{}*'\n  - foo: '*{}*'\n", body(bytes / 2, 'a'), body(bytes / 2, 'b'))),
         _ => return None,
     })
+}
+
+fn hex_encode(b: &[u8]) -> String {
+    b.iter().map(|x| format!("{x:02x}")).collect()
+}
+
+fn hex_decode(s: &str) -> Option<Vec<u8>> {
+    if s.len() % 2 != 0 || !s.is_ascii() {
+        return None;
+    }
+    (0..s.len()).step_by(2).map(|i| u8::from_str_radix(&s[i..i + 2], 16).ok()).collect()
 }
 
 fn text_case(kind: &str, text: String) -> Case {
@@ -551,7 +619,7 @@ pub fn run(tier: &str, seed: u64) -> i32 {
         part: random printable / unicode strings in all roles and as whole rule text, arbitrary YAML value trees \
         (every scalar kind, sequences, mappings with non-string keys, tags, depth <= 5) as whole rule and substituted \
         into a random position of a valid rule, nesting 1..64 deep. Each input goes through String::tokenise, \
-        into_identifier, parse_identifier, Rule::from_str and Rule::from_value as applicable. Oracle: returns Ok or \
+        into_identifier, parse_identifier, Rule::from_str and Rule::from_value as applicable; a further stream writes rule texts - intact, or damaged at the byte level (truncation inside a character, stray bytes, byte order mark, CRLF) - and arbitrary bytes to a file and loads them with Rule::load, which must not panic, must agree with Rule::from_str whenever the bytes are UTF-8, and must return an error for a missing path or a directory. Oracle: returns Ok or \
         Err without panic or overflow (overflow checks are compiled in) and within the 20 s watchdog. The degenerate \
         corpus includes long multi-byte texts, non-ASCII digits and wrong-shaped identifier blocks whose rendering is \
         long. Non-trivial: \
@@ -684,6 +752,63 @@ pub fn run(tier: &str, seed: u64) -> i32 {
         },
         judge,
         |_, rep| rep.label("yaml_shape"),
+    );
+    // Rule::load: the same texts (and texts damaged at the byte level) arriving as files
+    gen::drive(
+        &mut report,
+        32,
+        n / 20,
+        || {
+            (
+                gen::rule(gen::RuleOpts::default()),
+                prop_oneof![
+                    4 => Just(Vec::<u8>::new()),
+                    1 => proptest::collection::vec(any::<u8>(), 0..48),
+                    1 => arbitrary_text().prop_map(|t| t.into_bytes()),
+                ],
+                proptest::collection::vec((any::<u16>(), any::<u8>(), 0u8..5), 0..3),
+            )
+        },
+        |(rule, raw, edits): &(RuleSpec, Vec<u8>, Vec<(u16, u8, u8)>)| {
+            let mut bytes = if raw.is_empty() && rule.well_formed() {
+                engine::rule_text(&rule.detection_yaml(), &[], &[]).into_bytes()
+            } else {
+                raw.clone()
+            };
+            for (pos, byte, how) in edits {
+                let at = (*pos as usize * (bytes.len() + 1)) >> 16;
+                match how {
+                    0 => bytes.truncate(at),
+                    1 => {
+                        if at < bytes.len() {
+                            bytes[at] = *byte
+                        }
+                    }
+                    2 => bytes.insert(at, *byte),
+                    3 => {
+                        // byte order mark / a multi-byte character cut short
+                        let ins: &[u8] = if byte % 2 == 0 { &[0xef, 0xbb, 0xbf] } else { &[0xe6, 0x97] };
+                        for (k, b) in ins.iter().enumerate() {
+                            bytes.insert((at + k).min(bytes.len()), *b);
+                        }
+                    }
+                    _ => {
+                        // carriage returns before every line feed
+                        let mut out = Vec::with_capacity(bytes.len() + 16);
+                        for b in &bytes {
+                            if *b == b'\n' {
+                                out.push(b'\r');
+                            }
+                            out.push(*b);
+                        }
+                        bytes = out;
+                    }
+                }
+            }
+            vec![text_case("c04.file", hex_encode(&bytes))]
+        },
+        judge,
+        |_, rep| rep.label("file_bytes"),
     );
     // saved fuzz corpus / golden inputs (replay tier of the libFuzzer campaigns)
     let corpus = verif_root().join("harness").join("fuzz").join("golden");
